@@ -323,6 +323,47 @@ def run_histories(tier, seed, R_):
         FRB.PIXEL_CACHE.pop(cache_id, None)
 
 
+def run_reused_bounds_list(tier, seed, R_, verbose=False):
+    """the caller keeps ONE bounds list and edits it in place between requests under one cache id (stepping a slice, replacing a range)"""
+    from glue.core.fixed_resolution_buffer import compute_fixed_resolution_buffer
+    from glue.core import fixed_resolution_buffer as FRB
+    dc, R, src = build()
+    bad = 0
+    for name in ('R', 'S_same', 'S_perm', 'S_off'):
+        if name not in src:
+            continue
+        S = src[name][0]
+        sels = selections(R, S)
+        for what, arg in (('values', S.id['v']),) + tuple(('mask', sels[k]) for k in list(sels)[:1]):
+            cache_id = 'verif-reused-list-%s-%s' % (name, what)
+            bounds = [0] + [(-0.5, n - 0.5, n) for n in R.shape[1:]]
+            edits = [(0, 1), (0, 2), (1, (0.5, R.shape[1] - 1.5, 2)), (0, 0), (2, (-0.5, 1.5, 2)), (0, 3)]
+            for step, (i, new) in enumerate([(None, None)] + edits):
+                if i is not None:
+                    bounds[i] = new              # in place: the same list object is passed again
+                kw = dict(target_data=R, cache_id=cache_id)
+                kw['target_cid' if what == 'values' else 'subset_state'] = arg
+                kw0 = dict(kw, cache_id=None)
+                with warnings.catch_warnings():
+                    warnings.simplefilter('ignore')
+                    cached = compute_fixed_resolution_buffer(S, bounds, **kw)
+                    fresh = compute_fixed_resolution_buffer(S, list(bounds), **kw0)
+                if R_ is not None:
+                    R_.count(('reused-list', name, what, step), 'cached-vs-uncached-reused-bounds-list')
+                ok = np.shape(cached) == np.shape(fresh) and same(cached, fresh)
+                if verbose:
+                    print(name, what, step, list(bounds), 'agree' if ok else 'DIFFER')
+                if not ok:
+                    bad += 1
+                    if R_ is not None:
+                        R_.fail("frb|cache|reused-bounds-list", "source %s, %s: one bounds list edited in place between requests under one cache id; at step %d (bounds %r) the cached request differs from the uncached one"
+                                % (name, what, step, list(bounds)), "from bounded.c16_frb import run_reused_bounds_list\nsys.exit(run_reused_bounds_list(%r, %r, None, True))\n" % (tier, seed))
+                    break
+            FRB.ARRAY_CACHE.pop(cache_id, None)
+            FRB.PIXEL_CACHE.pop(cache_id, None)
+    return 1 if bad else 0
+
+
 def run_replaced_selections(tier, seed, R_, verbose=False):
     """a selection is replaced by a new, different one (the old object is dropped by its only holder) and requested under the same cache id"""
     import gc
@@ -444,5 +485,6 @@ def run(tier, seed, R):
     run_definition(tier, seed, R)
     run_histories(tier, seed, R)
     run_replaced_selections(tier, seed, R)
+    run_reused_bounds_list(tier, seed, R)
     run_viewer(tier, seed, R)
     R.samples.append({"case": "S_off (3x4x3 cube offset inside R), bounds (7, (-2.3, 6.4, 7), (0.25, 4.8, 3)) then scalar moved to 2 under the same cache id: cached == uncached == resampled values"})
